@@ -1,6 +1,6 @@
 (* ParseProofs3.v — C05: parse (print_toks e) = e on the fragment.  Part 3: the main induction. *)
 From Coq Require Import Lia String.
-From Cedar Require Import Unescape UnescapeProofs Printable ParseProofs ParseProofs2.
+From Cedar Require Import Unescape UnescapeProofs Printable ExprInd SortProofs ParseProofs ParseProofs2.
 Open Scope N_scope.
 
 Lemma level_le7 e : (level e <= 7)%nat.
@@ -36,6 +36,86 @@ Proof.
 Qed.
 Lemma follow7_not_lparen rest : follow_ok 7 rest = true -> match rest with TLParen :: _ => False | _ => True end.
 Proof. destruct rest as [|[] ?]; cbn; intros H; try exact I; discriminate. Qed.
+
+Definition starts_expr (ts : list token) : bool :=
+  match ts with
+  | (TIdent _ | TNum _ | TStr _ | TSlot _ | TLParen | TLBrack | TLBrace | TBang | TMinus | TColon2) :: _ => true
+  | _ => false
+  end.
+Lemma starts_not_close ts : starts_expr ts = true ->
+  match ts with t :: _ => is_rparen t = false /\ is_rbrack t = false | [] => False end.
+Proof. destruct ts as [|[] ?]; cbn; intros H; try discriminate; split; reflexivity. Qed.
+
+Lemma need_pos e : (1 <= need e)%nat.
+Proof. destruct e; try destruct op; cbn; lia. Qed.
+Lemma need_list l : (fix go (l : list expr) : nat := match l with [] => O | x :: l' => (S (need x) + go l')%nat end) l = needs l.
+Proof. induction l as [|x l IH]; [reflexivity|]. cbn [needs]. rewrite <- IH. reflexivity. Qed.
+Lemma needs_In a l : In a l -> (need a < needs l)%nat.
+Proof. induction l as [|x l IH]; intros H; [contradiction|]. cbn [needs]. destruct H as [->|H]; [lia|]. specialize (IH H). lia. Qed.
+Lemma needs_length l : (length l <= needs l)%nat.
+Proof. induction l as [|x l IH]; cbn [length needs]; lia. Qed.
+
+Lemma args_loop_nil rec n close t rest : close t = true -> args_loop rec n close (t :: rest) = Some ([], rest).
+Proof. intros H. destruct n; cbn [args_loop]; rewrite H; reflexivity. Qed.
+Lemma args_loop_cons rec k close ts r ts1 e :
+  match ts with t :: _ => close t = false | [] => False end ->
+  rec ts = Some (r, ts1) -> into_expr r = Some e ->
+  args_loop rec (S k) close ts =
+    match ts1 with
+    | TComma :: ts2 => match args_loop rec k close ts2 with Some (es, r2) => Some (e :: es, r2) | None => None end
+    | t1 :: ts2 => if close t1 then Some ([e], ts2) else None
+    | [] => None
+    end.
+Proof. destruct ts as [|t ts']; [contradiction|]. intros Hc H Hi. cbn [args_loop]. rewrite Hc, H, Hi. reflexivity. Qed.
+
+Lemma pm_func rec fuel ts n ts2 args ts3 e :
+  parse_primary rec fuel ts = Some (EName n, TLParen :: ts2) ->
+  args_loop rec fuel is_rparen ts2 = Some (args, ts3) -> into_func n args = Some e ->
+  parse_member rec fuel ts = access_loop rec fuel fuel e ts3.
+Proof. intros H1 H2 H3. unfold parse_member. rewrite H1. cbn [access_start]. rewrite H2, H3. reflexivity. Qed.
+
+Lemma method_fn_facts m : existsb (str_eqb m) method_style_fns = true ->
+  unreserved m = true /\ forall r args, to_meth m r args = Some (ExtCall [m] (r :: args)).
+Proof.
+  unfold method_style_fns. cbn [map existsb]. intros H.
+  repeat (apply orb_true_iff in H; destruct H as [H|H]); try discriminate;
+    apply str_eqb_eq in H; subst m; (split; [reflexivity|intros; reflexivity]).
+Qed.
+
+Lemma function_fn_facts fn : is_function_name fn = true ->
+  exists b, fn = [b] /\ is_method_style fn = false /\ kw "if" b = false /\
+    (forall args, into_func fn args = Some (ExtCall fn args)) /\
+    (forall rec fuel X, parse_primary rec fuel (TIdent b :: TLParen :: X) = Some (EName [b], TLParen :: X)).
+Proof.
+  intros H. destruct fn as [|b [|? ?]]; try (cbn in H; discriminate H). unfold is_function_name, function_style_fns in H. cbn [map existsb] in H.
+  repeat (apply orb_true_iff in H; destruct H as [H|H]); try discriminate;
+    apply str_eqb_eq in H; subst b; eexists; repeat split; reflexivity.
+Qed.
+
+Lemma need_list_r l :
+  (fix go (l : list (str * expr)) : nat := match l with [] => O | kv :: l' => (S (need (snd kv)) + go l')%nat end) l = needs_r l.
+Proof. induction l as [|x l IH]; [reflexivity|]. cbn [needs_r]. rewrite <- IH. reflexivity. Qed.
+Lemma needs_r_In kv l : In kv l -> (need (snd kv) < needs_r l)%nat.
+Proof. induction l as [|x l IH]; intros H; [contradiction|]. cbn [needs_r]. destruct H as [->|H]; [lia|]. specialize (IH H). lia. Qed.
+Lemma needs_r_length l : (length l <= needs_r l)%nat.
+Proof. induction l as [|x l IH]; cbn [length needs_r]; lia. Qed.
+
+Lemma recinits_nil rec n rest : recinits_loop rec n (TRBrace :: rest) = Some ([], rest).
+Proof. destruct n; reflexivity. Qed.
+Lemma recinits_cons rec k ts rk ts1 key rv ts2 v :
+  match ts with TRBrace :: _ | [] => False | _ => True end -> starts_with_if ts = false ->
+  rec ts = Some (rk, TColon :: ts1) -> into_valid_attr rk = Some key ->
+  rec ts1 = Some (rv, ts2) -> into_expr rv = Some v ->
+  recinits_loop rec (S k) ts =
+    match ts2 with
+    | TComma :: ts3 => match recinits_loop rec k ts3 with Some (kvs, r) => Some ((key, v) :: kvs, r) | None => None end
+    | TRBrace :: ts3 => Some ([(key, v)], ts3)
+    | _ => None
+    end.
+Proof.
+  intros Hh Hif H1 H2 H3 H4. destruct ts as [|t ts']; [contradiction|].
+  destruct t; try contradiction; cbn [recinits_loop]; rewrite Hif, H1, H2, H3, H4; reflexivity.
+Qed.
 
 Section Main.
   Variable np : N -> bool.
@@ -257,10 +337,206 @@ Section Main.
     - rewrite name_toks_cons. cbn [app not_if_head]. rewrite Kif. reflexivity.
   Qed.
 
+  Lemma starts_mwp x rest : (forall r, starts_expr (PT x ++ r) = true) -> starts_expr (MWP x ++ rest) = true.
+  Proof. intros H. unfold mwp, wrapt. destruct (bare_operand x); [apply H|reflexivity]. Qed.
+
+  Lemma PT_starts e : forall rest, starts_expr (PT e ++ rest) = true.
+  Proof.
+    induction e as [p|v|s|n ty|c IHc t IHt e IHe|a IHa b IHb|a IHa b IHb|op a IHa|op a IHa b IHb
+                   |fn args IHargs|a IHa k|a IHa k|a IHa p|a IHa t|items IHitems|items IHitems] using expr_ind';
+      intros rest.
+    - destruct p as [b|z|s|u].
+      + destruct b; reflexivity.
+      + cbn [print_toks prim_toks]. destruct (z <? 0)%Z; reflexivity.
+      + reflexivity.
+      + cbn [print_toks prim_toks]. unfold uid_toks. destruct (uty u) as [|c p]; [reflexivity|].
+        rewrite name_toks_cons. reflexivity.
+    - destruct v; reflexivity.
+    - destruct s; reflexivity.
+    - reflexivity.
+    - reflexivity.
+    - destruct a; try (rewrite PT_and by reflexivity; rewrite <- app_assoc; apply starts_mwp; exact IHa).
+      rewrite PT_and_chain, <- app_assoc. apply IHa.
+    - destruct a; try (rewrite PT_or by reflexivity; rewrite <- app_assoc; apply starts_mwp; exact IHa).
+      rewrite PT_or_chain, <- app_assoc. apply IHa.
+    - destruct op; try reflexivity. cbn [print_toks]. rewrite <- app_assoc. apply (starts_mwp a). exact IHa.
+    - destruct (binop_tok op) as [tk|] eqn:Etk.
+      + destruct (same_assoc op a) eqn:Hs.
+        * rewrite (PT_infix_chain op tk a b Etk Hs), <- app_assoc. apply IHa.
+        * rewrite (PT_infix op tk a b Etk Hs), <- app_assoc. apply starts_mwp. exact IHa.
+      + cbn [print_toks]. rewrite Etk. rewrite <- app_assoc. apply (starts_mwp a). exact IHa.
+    - cbn [print_toks]. destruct (is_method_style fn); destruct args as [|r args'];
+        try (destruct fn as [|c p]; [reflexivity|rewrite name_toks_cons; reflexivity]).
+      rewrite <- app_assoc. apply (starts_mwp r). inversion IHargs; assumption.
+    - cbn [print_toks]. rewrite <- app_assoc. apply (starts_mwp a). exact IHa.
+    - cbn [print_toks]. rewrite <- app_assoc. apply (starts_mwp a). exact IHa.
+    - cbn [print_toks]. rewrite <- app_assoc. apply (starts_mwp a). exact IHa.
+    - cbn [print_toks]. rewrite <- app_assoc. apply (starts_mwp a). exact IHa.
+    - reflexivity.
+    - reflexivity.
+  Qed.
+
+  Lemma args_ok close ctok : close ctok = true -> match ctok with TComma => False | _ => True end ->
+    (forall ts, starts_expr ts = true -> match ts with t :: _ => close t = false | [] => False end) ->
+    (forall rest, follow_ok 0 (ctok :: rest) = true) ->
+    forall es f, Forall (fun e => printable e = true /\ main e) es -> (forall e, In e es -> (need e < f)%nat) ->
+    forall n rest, (length es <= n)%nat ->
+    args_loop (R f) n close (commas (map PT es) ++ ctok :: rest) = Some (es, rest).
+  Proof.
+    intros Hc Hnc Hs Hfo es f HF. induction HF as [|e es [Hp M] HF IH]; intros Hn n rest Hl.
+    - cbn [map commas app]. apply args_loop_nil. exact Hc.
+    - destruct n as [|k]; [cbn in Hl; lia|].
+      assert (need e < f)%nat as Hne by (apply Hn; left; reflexivity).
+      destruct es as [|e2 es'].
+      + cbn [map commas]. erewrite args_loop_cons;
+          [|apply Hs; apply PT_starts|apply (top e Hp M f Hne); apply Hfo|apply into_expr_sp; exact Hp].
+        destruct ctok; try contradiction; cbv beta iota; rewrite Hc; reflexivity.
+      + cbn [map]. change (commas (PT e :: PT e2 :: map PT es')) with (PT e ++ TComma :: commas (map PT (e2 :: es'))).
+        rewrite <- app_assoc. cbn [app]. erewrite args_loop_cons;
+          [|apply Hs; apply PT_starts|apply (top e Hp M f Hne); reflexivity|apply into_expr_sp; exact Hp].
+        cbv beta iota. rewrite IH; [reflexivity| |cbn [length] in *; lia]. intros x Hx. apply Hn. right. exact Hx.
+  Qed.
+
+  Lemma args_paren es f rest : Forall (fun e => printable e = true /\ main e) es ->
+    (forall e, In e es -> (need e < f)%nat) -> (length es <= f)%nat ->
+    args_loop (R f) f is_rparen (commas (map PT es) ++ TRParen :: rest) = Some (es, rest).
+  Proof.
+    intros HF Hn Hl. apply (args_ok is_rparen TRParen); try assumption; try reflexivity; try exact I.
+    intros ts H. pose proof (starts_not_close ts H) as Hx. destruct ts; [exact Hx|apply Hx].
+  Qed.
+  Lemma args_brack es f rest : Forall (fun e => printable e = true /\ main e) es ->
+    (forall e, In e es -> (need e < f)%nat) -> (length es <= f)%nat ->
+    args_loop (R f) f is_rbrack (commas (map PT es) ++ TRBrack :: rest) = Some (es, rest).
+  Proof.
+    intros HF Hn Hl. apply (args_ok is_rbrack TRBrack); try assumption; try reflexivity; try exact I.
+    intros ts H. pose proof (starts_not_close ts H) as Hx. destruct ts; [exact Hx|apply Hx].
+  Qed.
+
+  Definition Gform (e : expr) : Prop :=
+    forall f, (need e <= f)%nat -> forall rest, match rest with TLParen :: _ => False | _ => True end ->
+    exists n, (f <= n + need e)%nat /\ parse_member (R f) f (PT e ++ rest) = access_loop (R f) f n e rest.
+
+  Lemma member_A e : level e = 7%nat -> SP e = EExpr e -> Gform e ->
+    forall f, (need e <= f)%nat -> forall rest, follow_ok (level e) rest = true ->
+    parse_at (level e) (R f) f (PT e ++ rest) = Some (SP e, rest).
+  Proof.
+    intros E7 Es G f Hn rest Hr. rewrite E7 in *. rewrite Es. cbn [parse_at].
+    destruct (G f Hn rest (follow7_not_lparen rest Hr)) as (n & _ & He). rewrite He.
+    apply access_stop. apply follow7_no_access. exact Hr.
+  Qed.
+  Lemma member_B e : Gform e -> forall f, (need e <= f)%nat -> forall rest, acc_head rest = true ->
+    exists n, (f <= n + need e)%nat /\ parse_member (R f) f (PT e ++ rest) = access_loop (R f) f n e rest.
+  Proof. intros G f Hn rest Hr. apply (G f Hn rest). apply acc_head_facts. exact Hr. Qed.
+
+  (* a primary that converts to the expression itself (sets, records) *)
+  Lemma prim_G e : (forall f, (need e <= f)%nat -> forall rest,
+                      parse_primary (R f) f (PT e ++ rest) = Some (EExpr e, rest)) -> Gform e.
+  Proof.
+    intros H f Hn rest Hr. destruct (access_start rest) eqn:Ha.
+    - exists f. split; [lia|]. eapply pm_acc; [apply H; exact Hn|exact Ha|intros n; discriminate|reflexivity].
+    - exists f. split; [lia|]. rewrite (pm_noacc _ _ _ _ _ (H f Hn rest) Ha).
+      symmetry. apply access_stop. exact Ha.
+  Qed.
+
+  (* receiver . m ( args ) *)
+  Lemma method_call r m args e' rest f :
+    printable r = true -> main r -> Forall (fun e => printable e = true /\ main e) args ->
+    unreserved m = true -> to_meth m r args = Some e' ->
+    (S (need r) < f)%nat -> (forall a, In a args -> (need a < f)%nat) -> (length args <= f)%nat ->
+    exists n, (f <= n + S (S (need r)))%nat /\
+      parse_member (R f) f (MWP r ++ TDot :: TIdent m :: TLParen :: commas (map PT args) ++ TRParen :: rest)
+      = access_loop (R f) f n e' rest.
+  Proof.
+    intros Hp M HF Hu Hm Hf Hn Hl.
+    destruct (operand_acc r Hp M f ltac:(lia) (TDot :: TIdent m :: TLParen :: commas (map PT args) ++ TRParen :: rest) eq_refl)
+      as (n0 & Hn0 & He).
+    destruct n0 as [|n']; [lia|]. exists n'. split; [lia|]. rewrite He. cbn [access_loop].
+    rewrite Hu. rewrite (args_paren args f rest HF Hn Hl). rewrite Hm. reflexivity.
+  Qed.
+
+  Lemma Forall_pm l : Forall (fun e => in_fragment e = true -> printable e = true -> main e) l ->
+    forallb in_fragment l = true -> forallb printable l = true ->
+    Forall (fun e => printable e = true /\ main e) l.
+  Proof.
+    induction 1 as [|x l Hx HF IH]; intros H1 H2; [constructor|].
+    cbn [forallb] in H1, H2. apply andb_true_iff in H1. apply andb_true_iff in H2.
+    destruct H1 as [A1 B1]. destruct H2 as [A2 B2]. constructor; [split; [exact A2|apply Hx; assumption]|apply IH; assumption].
+  Qed.
+
+  Definition entry (kv : str * expr) : list token := key_tok np ge (fst kv) :: TColon :: PT (snd kv).
+  Lemma PT_record items : PT (RecordE items) = TLBrace :: commas (map entry items) ++ [TRBrace].
+  Proof.
+    cbn [print_toks]. f_equal. f_equal. f_equal.
+    induction items as [|[k v] l IH]; [reflexivity|]. cbn [map entry fst snd]. rewrite <- IH. reflexivity.
+  Qed.
+
+  Lemma key_at0 f k rest : wf_str k = true -> follow_ok 0 rest = true ->
+    exists rk, R (S f) (key_tok np ge k :: rest) = Some (rk, rest) /\ into_valid_attr rk = Some k.
+  Proof.
+    intros Hk Hr. unfold key_tok. destruct (is_normalized_ident k) eqn:En.
+    - pose proof (normalized_unreserved k En) as Hu. destruct (unreserved_not_kw k Hu) as (Kt & Kf & Kif).
+      assert (follow_ok 7 rest = true) as H7 by (eapply follow_mono; [exact Hr|lia]).
+      destruct (follow7_no_access rest H7) as [Ha Hnp].
+      assert (exists rk, parse_primary (R f) f (TIdent k :: rest) = Some (rk, rest) /\ into_valid_attr rk = Some k)
+        as (rk & Hprim & Hv).
+      { cbn [parse_primary]. rewrite parse_path_nil by exact Hnp. rewrite Kt, Kf. destruct (var_of_ident k) eqn:Ev.
+        - eexists. split; [reflexivity|]. cbn [into_valid_attr]. rewrite (var_of_ident_show k v Ev). reflexivity.
+        - rewrite Hu. eexists. split; reflexivity. }
+      exists rk. split; [|exact Hv]. cbn [parse_expr]. change (parse_expr_body (R f) f) with (parse_at 0 (R f) f).
+      apply (descend (R f) f 7 0); try lia; try exact Hr; try reflexivity.
+      + cbn [parse_at]. apply pm_noacc; assumption.
+      + cbn [not_if_head]. rewrite Kif. reflexivity.
+    - exists (EStr (escape_debug np ge k)). split; [|cbn [into_valid_attr]; apply unescape_opt_escape; exact Hk].
+      cbn [parse_expr]. unfold tstr. apply (str_tok_at (R f) f 0); [lia|exact Hr].
+  Qed.
+
+  Lemma recinits_ok items f :
+    Forall (fun kv => wf_str (fst kv) = true /\ printable (snd kv) = true /\ main (snd kv)) items ->
+    (forall kv, In kv items -> (need (snd kv) < f)%nat) ->
+    forall n rest, (length items <= n)%nat ->
+    recinits_loop (R (S f)) n (commas (map entry items) ++ TRBrace :: rest) = Some (items, rest).
+  Proof.
+    intros HF. induction HF as [|[k v] l (Hk & Hp & M) HF IH]; intros Hn n rest Hl.
+    - cbn [map commas app]. apply recinits_nil.
+    - destruct n as [|n']; [cbn in Hl; lia|]. cbn [fst snd] in *.
+      assert (need v < f)%nat as Hnv by (apply (Hn (k, v)); left; reflexivity).
+      assert (match key_tok np ge k :: TColon :: PT v with TRBrace :: _ | [] => False | _ => True end) as Hh
+        by (unfold key_tok; destruct (is_normalized_ident k); exact I).
+      assert (forall X, starts_with_if (key_tok np ge k :: X) = false) as Hif.
+      { intros X. unfold key_tok. destruct (is_normalized_ident k) eqn:En; [|reflexivity].
+        cbn [starts_with_if]. apply (unreserved_not_kw k (normalized_unreserved k En)). }
+      destruct l as [|kv2 l'].
+      + cbn [map commas entry fst snd app]. rewrite <- ?app_comm_cons.
+        destruct (key_at0 f k (TColon :: PT v ++ TRBrace :: rest) Hk eq_refl) as (rk & Hrk & Hv).
+        erewrite recinits_cons; [|exact Hh|apply Hif|exact Hrk|exact Hv
+                                 |apply (top v Hp M (S f)); [lia|reflexivity]|apply into_expr_sp; exact Hp].
+        reflexivity.
+      + cbn [map]. change (commas (entry (k, v) :: entry kv2 :: map entry l'))
+          with (entry (k, v) ++ TComma :: commas (map entry (kv2 :: l'))).
+        rewrite <- app_assoc. cbn [entry fst snd app].
+        destruct (key_at0 f k (TColon :: PT v ++ TComma :: commas (map entry (kv2 :: l')) ++ TRBrace :: rest) Hk eq_refl)
+          as (rk & Hrk & Hv).
+        erewrite recinits_cons; [|exact Hh|apply Hif|exact Hrk|exact Hv
+                                 |apply (top v Hp M (S f)); [lia|reflexivity]|apply into_expr_sp; exact Hp].
+        cbv beta iota. rewrite IH; [reflexivity| |cbn [length] in *; lia].
+        intros x Hx. apply Hn. right. exact Hx.
+  Qed.
+
+  Lemma Forall_pm_r l : Forall (fun kv => in_fragment (snd kv) = true -> printable (snd kv) = true -> main (snd kv)) l ->
+    forallb (fun kv => in_fragment (snd kv)) l = true ->
+    forallb (fun kv => wf_str (fst kv) && printable (snd kv)) l = true ->
+    Forall (fun kv => wf_str (fst kv) = true /\ printable (snd kv) = true /\ main (snd kv)) l.
+  Proof.
+    induction 1 as [|x l Hx HF IH]; intros H1 H2; [constructor|].
+    cbn [forallb] in H1, H2. apply andb_true_iff in H1. apply andb_true_iff in H2.
+    destruct H1 as [A1 B1]. destruct H2 as [A2 B2]. apply andb_true_iff in A2. destruct A2 as [W Pp].
+    constructor; [split; [exact W|split; [exact Pp|apply Hx; assumption]]|apply IH; assumption].
+  Qed.
+
   Theorem main_all e : in_fragment e = true -> printable e = true -> main e.
   Proof.
     induction e as [p|v|s|n ty|c IHc t IHt e IHe|a IHa b IHb|a IHa b IHb|op a IHa|op a IHa b IHb
-                   |fn args|a IHa k|a IHa k|a IHa p|a IHa t|items|items];
+                   |fn args IHargs|a IHa k|a IHa k|a IHa p|a IHa t|items IHitems|items IHitems] using expr_ind';
       intros Hf Hp; cbn [in_fragment printable] in Hf, Hp; try discriminate.
     - apply main_leaf; [exact I|exact Hp].
     - apply main_leaf; [exact I|exact Hp].
@@ -350,7 +626,7 @@ Section Main.
         apply or_loop_stop. apply follow_or. exact Hr.
       + exact C.
     - (* UnApp *)
-      destruct op; try discriminate; specialize (IHa Hf Hp).
+      destruct op; specialize (IHa Hf Hp).
       + (* Not *)
         constructor; try exact I; try (intros; reflexivity); try (cbn [level]; intros; contradiction); try (intros; discriminate).
         intros f Hn rest Hr. cbn [level parse_at need] in *.
@@ -364,12 +640,24 @@ Section Main.
         destruct (follow7_no_access rest H7) as [Hacc _].
         eapply parse_unary_neg_paren with (r := EExpr a); [|reflexivity].
         apply pm_noacc; [|exact Hacc]. apply paren_primary; [exact Hp|exact IHa|lia].
+      + (* isEmpty *)
+        assert (Gform (UnApp UIsEmpty a)) as G.
+        { intros f Hn rest Hnl. cbn [need] in Hn.
+          destruct (method_call a (ascii "isEmpty") [] (UnApp UIsEmpty a) rest f Hp IHa
+                      ltac:(constructor) eq_refl eq_refl ltac:(lia) ltac:(intros x []) ltac:(cbn; lia)) as (n & Hn1 & He).
+          exists n. split; [cbn [need]; lia|].
+          cbn [print_toks]. unfold tid. rewrite <- app_assoc. cbn [app]. exact He. }
+        constructor; try exact I.
+        * intros rest. cbn [print_toks]. rewrite <- app_assoc. apply (head_mwp a _ IHa).
+        * intros _ rest. cbn [print_toks]. rewrite <- app_assoc. apply (head_mwp a _ IHa).
+        * intros _ _ rest. cbn [print_toks]. rewrite <- app_assoc. apply (head_mwp a _ IHa).
+        * apply member_A; [reflexivity|reflexivity|exact G].
+        * intros _. apply member_B. exact G.
     - (* BinApp *)
-      destruct (binop_tok op) as [tk|] eqn:Etk; [|discriminate].
       apply andb_true_iff in Hf. destruct Hf as [Hfa Hfb].
       apply andb_true_iff in Hp. destruct Hp as [Hpa Hpb].
       specialize (IHa Hfa Hpa). specialize (IHb Hfb Hpb).
-      destruct op; try discriminate Etk; clear Etk tk.
+      destruct op.
         { (* == *)
           assert (forall rest, starts_path (PT (BinApp BEq a b) ++ rest) = false /\ not_if_head (PT (BinApp BEq a b) ++ rest) = true
                                /\ head_plain (PT (BinApp BEq a b) ++ rest) = true) as Hh
@@ -520,6 +808,123 @@ Section Main.
             destruct (operand a Hpa IHa f ltac:(lia) 4%nat ltac:(lia) (tid "in" :: MWP b ++ rest) eq_refl) as (ra & Ha & Ia).
             destruct (operand b Hpb IHb f ltac:(lia) 4%nat ltac:(lia) rest ltac:(eapply follow_mono; [exact Hr|lia])) as (rb & Hb & Ib).
             eapply parse_rel_relop; try eassumption; try reflexivity. apply follow_rel; exact Hr. }
+        { (* contains *)
+          assert (Gform (BinApp BContains a b)) as G.
+          { intros f Hn rest Hnl. cbn [need] in Hn. pose proof (need_pos b).
+            destruct (method_call a (ascii "contains") [b] (BinApp BContains a b) rest f Hpa IHa
+                        ltac:(constructor; [split; assumption|constructor]) eq_refl eq_refl ltac:(lia)
+                        ltac:(intros x [<-|[]]; lia) ltac:(cbn; lia)) as (n & Hn1 & He).
+            exists n. split; [cbn [need]; lia|].
+            cbn [print_toks binop_tok binop_method_name]. unfold tid. rewrite <- app_assoc. cbn [app]. rewrite <- app_assoc.
+            exact He. }
+          constructor; try exact I.
+          - intros rest. cbn [print_toks binop_tok]. rewrite <- app_assoc. apply (head_mwp a _ IHa).
+          - intros _ rest. cbn [print_toks binop_tok]. rewrite <- app_assoc. apply (head_mwp a _ IHa).
+          - intros _ _ rest. cbn [print_toks binop_tok]. rewrite <- app_assoc. apply (head_mwp a _ IHa).
+          - apply member_A; [reflexivity|reflexivity|exact G].
+          - intros _. apply member_B. exact G. }
+        { (* containsAll *)
+          assert (Gform (BinApp BContainsAll a b)) as G.
+          { intros f Hn rest Hnl. cbn [need] in Hn. pose proof (need_pos b).
+            destruct (method_call a (ascii "containsAll") [b] (BinApp BContainsAll a b) rest f Hpa IHa
+                        ltac:(constructor; [split; assumption|constructor]) eq_refl eq_refl ltac:(lia)
+                        ltac:(intros x [<-|[]]; lia) ltac:(cbn; lia)) as (n & Hn1 & He).
+            exists n. split; [cbn [need]; lia|].
+            cbn [print_toks binop_tok binop_method_name]. unfold tid. rewrite <- app_assoc. cbn [app]. rewrite <- app_assoc.
+            exact He. }
+          constructor; try exact I.
+          - intros rest. cbn [print_toks binop_tok]. rewrite <- app_assoc. apply (head_mwp a _ IHa).
+          - intros _ rest. cbn [print_toks binop_tok]. rewrite <- app_assoc. apply (head_mwp a _ IHa).
+          - intros _ _ rest. cbn [print_toks binop_tok]. rewrite <- app_assoc. apply (head_mwp a _ IHa).
+          - apply member_A; [reflexivity|reflexivity|exact G].
+          - intros _. apply member_B. exact G. }
+        { (* containsAny *)
+          assert (Gform (BinApp BContainsAny a b)) as G.
+          { intros f Hn rest Hnl. cbn [need] in Hn. pose proof (need_pos b).
+            destruct (method_call a (ascii "containsAny") [b] (BinApp BContainsAny a b) rest f Hpa IHa
+                        ltac:(constructor; [split; assumption|constructor]) eq_refl eq_refl ltac:(lia)
+                        ltac:(intros x [<-|[]]; lia) ltac:(cbn; lia)) as (n & Hn1 & He).
+            exists n. split; [cbn [need]; lia|].
+            cbn [print_toks binop_tok binop_method_name]. unfold tid. rewrite <- app_assoc. cbn [app]. rewrite <- app_assoc.
+            exact He. }
+          constructor; try exact I.
+          - intros rest. cbn [print_toks binop_tok]. rewrite <- app_assoc. apply (head_mwp a _ IHa).
+          - intros _ rest. cbn [print_toks binop_tok]. rewrite <- app_assoc. apply (head_mwp a _ IHa).
+          - intros _ _ rest. cbn [print_toks binop_tok]. rewrite <- app_assoc. apply (head_mwp a _ IHa).
+          - apply member_A; [reflexivity|reflexivity|exact G].
+          - intros _. apply member_B. exact G. }
+        { (* getTag *)
+          assert (Gform (BinApp BGetTag a b)) as G.
+          { intros f Hn rest Hnl. cbn [need] in Hn. pose proof (need_pos b).
+            destruct (method_call a (ascii "getTag") [b] (BinApp BGetTag a b) rest f Hpa IHa
+                        ltac:(constructor; [split; assumption|constructor]) eq_refl eq_refl ltac:(lia)
+                        ltac:(intros x [<-|[]]; lia) ltac:(cbn; lia)) as (n & Hn1 & He).
+            exists n. split; [cbn [need]; lia|].
+            cbn [print_toks binop_tok binop_method_name]. unfold tid. rewrite <- app_assoc. cbn [app]. rewrite <- app_assoc.
+            exact He. }
+          constructor; try exact I.
+          - intros rest. cbn [print_toks binop_tok]. rewrite <- app_assoc. apply (head_mwp a _ IHa).
+          - intros _ rest. cbn [print_toks binop_tok]. rewrite <- app_assoc. apply (head_mwp a _ IHa).
+          - intros _ _ rest. cbn [print_toks binop_tok]. rewrite <- app_assoc. apply (head_mwp a _ IHa).
+          - apply member_A; [reflexivity|reflexivity|exact G].
+          - intros _. apply member_B. exact G. }
+        { (* hasTag *)
+          assert (Gform (BinApp BHasTag a b)) as G.
+          { intros f Hn rest Hnl. cbn [need] in Hn. pose proof (need_pos b).
+            destruct (method_call a (ascii "hasTag") [b] (BinApp BHasTag a b) rest f Hpa IHa
+                        ltac:(constructor; [split; assumption|constructor]) eq_refl eq_refl ltac:(lia)
+                        ltac:(intros x [<-|[]]; lia) ltac:(cbn; lia)) as (n & Hn1 & He).
+            exists n. split; [cbn [need]; lia|].
+            cbn [print_toks binop_tok binop_method_name]. unfold tid. rewrite <- app_assoc. cbn [app]. rewrite <- app_assoc.
+            exact He. }
+          constructor; try exact I.
+          - intros rest. cbn [print_toks binop_tok]. rewrite <- app_assoc. apply (head_mwp a _ IHa).
+          - intros _ rest. cbn [print_toks binop_tok]. rewrite <- app_assoc. apply (head_mwp a _ IHa).
+          - intros _ _ rest. cbn [print_toks binop_tok]. rewrite <- app_assoc. apply (head_mwp a _ IHa).
+          - apply member_A; [reflexivity|reflexivity|exact G].
+          - intros _. apply member_B. exact G. }
+    - (* ExtCall *)
+      apply andb_true_iff in Hp. destruct Hp as [Hok Hpa].
+      pose proof (Forall_pm args IHargs Hf Hpa) as HF. clear IHargs.
+      assert (need (ExtCall fn args) = S (needs args)) as En by (cbn [need]; rewrite need_list; reflexivity).
+      unfold ext_ok in Hok. destruct (is_function_name fn) eqn:Efn.
+      + (* function style *)
+        destruct (function_fn_facts fn Efn) as (b & -> & Hms & Kif & Hfunc & Hprim).
+        assert (forall rest, PT (ExtCall [b] args) ++ rest = TIdent b :: TLParen :: commas (map PT args) ++ TRParen :: rest) as EP.
+        { intros rest. cbn [print_toks]. rewrite Hms. cbn [name_toks app]. rewrite <- app_assoc. reflexivity. }
+        assert (Gform (ExtCall [b] args)) as G.
+        { intros f Hn rest Hnl. rewrite En in *. exists f. split; [lia|]. rewrite EP.
+          eapply pm_func; [apply Hprim| |apply Hfunc].
+          apply args_paren; [exact HF| |pose proof (needs_length args); lia].
+          intros x Hx. pose proof (needs_In x args Hx). lia. }
+        constructor; try exact I.
+        * intros rest. rewrite EP. reflexivity.
+        * intros _ rest. rewrite EP. cbn [not_if_head]. rewrite Kif. reflexivity.
+        * intros _ _ rest. rewrite EP. reflexivity.
+        * apply member_A; [reflexivity|reflexivity|exact G].
+        * intros _. apply member_B. exact G.
+      + (* method style *)
+        cbn [orb] in Hok. apply andb_true_iff in Hok. destruct Hok as [Hms Hne].
+        destruct args as [|r args']; [cbn in Hne; discriminate Hne|].
+        destruct fn as [|m [|? ?]]; try (cbn in Hms; discriminate Hms).
+        cbn [is_method_style] in Hms. destruct (method_fn_facts m Hms) as [Hu Hmeth].
+        inversion HF as [|? ? [Hpr Mr] HF']; subst.
+        assert (forall rest, PT (ExtCall [m] (r :: args')) ++ rest
+                  = MWP r ++ TDot :: TIdent m :: TLParen :: commas (map PT args') ++ TRParen :: rest) as EP.
+        { intros rest. cbn [print_toks]. cbn [is_method_style]. rewrite Hms. cbn [name_toks].
+          rewrite <- app_assoc. cbn [app]. rewrite <- app_assoc. reflexivity. }
+        assert (Gform (ExtCall [m] (r :: args'))) as G.
+        { intros f Hn rest Hnl. rewrite En in *. cbn [needs] in *.
+          destruct (method_call r m args' (ExtCall [m] (r :: args')) rest f Hpr Mr HF' Hu (Hmeth r args')
+                      ltac:(lia) ltac:(intros x Hx; pose proof (needs_In x args' Hx); lia)
+                      ltac:(pose proof (needs_length args'); lia)) as (n & Hn1 & He).
+          exists n. split; [lia|]. rewrite EP. exact He. }
+        constructor; try exact I.
+        * intros rest. rewrite EP. apply (head_mwp r _ Mr).
+        * intros _ rest. rewrite EP. apply (head_mwp r _ Mr).
+        * intros _ _ rest. rewrite EP. apply (head_mwp r _ Mr).
+        * apply member_A; [reflexivity|reflexivity|exact G].
+        * intros _. apply member_B. exact G.
     - (* GetAttr *)
       apply andb_true_iff in Hp. destruct Hp as [Hpa Hk]. specialize (IHa Hf Hpa).
       assert (forall f, (need (GetAttr a k) <= f)%nat -> forall rest,
@@ -580,6 +985,29 @@ Section Main.
         destruct (name_at (R f) f t rest Hk Hr) as (rt & Hrt & Hty).
         fold (mwp np ge a).
         eapply parse_rel_is; [exact Ha|exact Ia|exact Hrt|exact Hty|apply follow3_not_in; exact Hr].
+    - (* SetE *)
+      pose proof (Forall_pm items IHitems Hf Hp) as HF. clear IHitems.
+      assert (need (SetE items) = S (needs items)) as En by (cbn [need]; rewrite need_list; reflexivity).
+      assert (Gform (SetE items)) as G.
+      { apply prim_G. intros f Hn rest. rewrite En in *. cbn [print_toks app]. rewrite <- app_assoc. cbn [app parse_primary].
+        rewrite args_brack; [reflexivity|exact HF| |pose proof (needs_length items); lia].
+        intros x Hx. pose proof (needs_In x items Hx). lia. }
+      constructor; try exact I; try (intros; reflexivity).
+      * apply member_A; [reflexivity|reflexivity|exact G].
+      * intros _. apply member_B. exact G.
+    - (* RecordE *)
+      apply andb_true_iff in Hp. destruct Hp as [Hpa Hsorted].
+      pose proof (Forall_pm_r items IHitems Hf Hpa) as HF. clear IHitems.
+      assert (need (RecordE items) = S (needs_r items)) as En by (cbn [need]; rewrite need_list_r; reflexivity).
+      assert (Gform (RecordE items)) as G.
+      { apply prim_G. intros f Hn rest. rewrite En in *. rewrite PT_record. cbn [app]. rewrite <- app_assoc. cbn [app parse_primary].
+        destruct f as [|f']; [lia|].
+        rewrite recinits_ok; [|exact HF| |pose proof (needs_r_length items); lia].
+        - rewrite (nodup_sorted items Hsorted), (sort_sorted items Hsorted). reflexivity.
+        - intros x Hx. pose proof (needs_r_In x items Hx). lia. }
+      constructor; try exact I; try (intros; rewrite PT_record; reflexivity).
+      * apply member_A; [reflexivity|reflexivity|exact G].
+      * intros _. apply member_B. exact G.
   Qed.
 End Main.
 
@@ -593,10 +1021,33 @@ Section Final.
   Lemma mwp_length x : (length (PT x) <= length (MWP x))%nat.
   Proof. unfold mwp, wrapt. destruct (bare_operand x); cbn [length]; rewrite ?app_length; cbn [length]; lia. Qed.
 
+  Lemma commas_len l : Forall (fun e => in_fragment e = true -> (need e <= length (PT e))%nat) l ->
+    forallb in_fragment l = true -> (needs l <= length (commas (map PT l)) + 1)%nat.
+  Proof.
+    induction 1 as [|x l Hx HF IH]; intros Hf; [cbn; lia|].
+    cbn [forallb] in Hf. apply andb_true_iff in Hf. destruct Hf as [Hfx Hfl].
+    specialize (Hx Hfx). specialize (IH Hfl). destruct l as [|y l'].
+    - cbn [map commas needs]. lia.
+    - cbn [map]. change (commas (PT x :: PT y :: map PT l')) with (PT x ++ TComma :: commas (map PT (y :: l'))).
+      rewrite app_length. cbn [length]. cbn [needs] in *. lia.
+  Qed.
+
+  Lemma commas_len_r l : Forall (fun kv => in_fragment (snd kv) = true -> (need (snd kv) <= length (PT (snd kv)))%nat) l ->
+    forallb (fun kv => in_fragment (snd kv)) l = true -> (needs_r l <= length (commas (map (entry np ge) l)) + 1)%nat.
+  Proof.
+    induction 1 as [|x l Hx HF IH]; intros Hf; [cbn; lia|].
+    cbn [forallb] in Hf. apply andb_true_iff in Hf. destruct Hf as [Hfx Hfl].
+    specialize (Hx Hfx). specialize (IH Hfl). destruct l as [|y l'].
+    - cbn [map commas needs_r]. unfold entry. cbn [length]. lia.
+    - cbn [map]. change (commas (entry np ge x :: entry np ge y :: map (entry np ge) l'))
+        with (entry np ge x ++ TComma :: commas (map (entry np ge) (y :: l'))).
+      rewrite app_length. unfold entry at 1. cbn [length]. cbn [needs_r] in *. lia.
+  Qed.
+
   Lemma need_le_length e : in_fragment e = true -> (need e <= length (PT e))%nat.
   Proof.
     induction e as [p|v|s|n ty|c IHc t IHt e IHe|a IHa b IHb|a IHa b IHb|op a IHa|op a IHa b IHb
-                   |fn args|a IHa k|a IHa k|a IHa p|a IHa t|items|items];
+                   |fn args IHargs|a IHa k|a IHa k|a IHa p|a IHa t|items IHitems|items IHitems] using expr_ind';
       intros Hf; cbn [in_fragment] in Hf; try discriminate.
     - destruct p as [b|z|s|u]; cbn [need print_toks prim_toks].
       + destruct b; cbn; lia.
@@ -616,14 +1067,25 @@ Section Final.
       specialize (IHa Hfa). specialize (IHb Hfb). pose proof (mwp_length a). pose proof (mwp_length b).
       destruct a; try (rewrite (PT_or np ge) by reflexivity; cbn [need] in *; rewrite app_length; cbn [length]; lia).
       rewrite PT_or_chain. cbn [need] in *. rewrite app_length. cbn [length]. lia.
-    - destruct op; try discriminate; specialize (IHa Hf); cbn [need print_toks length];
+    - destruct op; specialize (IHa Hf); cbn [need print_toks length];
         repeat (rewrite app_length || cbn [length]); pose proof (mwp_length a); fold (mwp np ge a); lia.
-    - destruct (binop_tok op) as [tk|] eqn:Etk; [|discriminate].
-      apply andb_true_iff in Hf. destruct Hf as [Hfa Hfb].
+    - apply andb_true_iff in Hf. destruct Hf as [Hfa Hfb].
       specialize (IHa Hfa). specialize (IHb Hfb). pose proof (mwp_length a). pose proof (mwp_length b).
-      destruct (same_assoc op a) eqn:Hsa.
-      + rewrite (PT_infix_chain np ge op tk a b Etk Hsa). cbn [need]. rewrite app_length. cbn [length]. lia.
-      + rewrite (PT_infix np ge op tk a b Etk Hsa). cbn [need]. rewrite app_length. cbn [length]. lia.
+      destruct (binop_tok op) as [tk|] eqn:Etk.
+      + destruct (same_assoc op a) eqn:Hsa.
+        * rewrite (PT_infix_chain np ge op tk a b Etk Hsa). cbn [need]. rewrite app_length. cbn [length]. lia.
+        * rewrite (PT_infix np ge op tk a b Etk Hsa). cbn [need]. rewrite app_length. cbn [length]. lia.
+      + cbn [need print_toks]. rewrite Etk. fold (mwp np ge a).
+        repeat (rewrite app_length || cbn [length]). lia.
+    - (* ExtCall *)
+      assert (need (ExtCall fn args) = S (needs args)) as En by (cbn [need]; rewrite need_list; reflexivity).
+      rewrite En. cbn [print_toks]. destruct (is_method_style fn); destruct args as [|r args'].
+      + pose proof (commas_len [] IHargs Hf). repeat (rewrite app_length || cbn [length]). cbn in *. lia.
+      + inversion IHargs as [|? ? Hr HF']; subst. cbn [forallb] in Hf. apply andb_true_iff in Hf. destruct Hf as [Hfr Hfa].
+        pose proof (commas_len args' HF' Hfa). specialize (Hr Hfr). pose proof (mwp_length r). fold (mwp np ge r).
+        cbn [needs]. repeat (rewrite app_length || cbn [length]). lia.
+      + pose proof (commas_len [] IHargs Hf). repeat (rewrite app_length || cbn [length]). cbn in *. lia.
+      + pose proof (commas_len (r :: args') IHargs Hf). repeat (rewrite app_length || cbn [length]). lia.
     - specialize (IHa Hf). cbn [need print_toks]. fold (mwp np ge a). rewrite app_length.
       pose proof (mwp_length a). destruct (is_normalized_ident k); cbn [length]; lia.
     - specialize (IHa Hf). cbn [need print_toks]. fold (mwp np ge a). rewrite app_length.
@@ -632,21 +1094,50 @@ Section Final.
       pose proof (mwp_length a). cbn [length]. lia.
     - specialize (IHa Hf). cbn [need print_toks]. fold (mwp np ge a). rewrite app_length.
       pose proof (mwp_length a). cbn [length]. lia.
+    - (* SetE *)
+      assert (need (SetE items) = S (needs items)) as En by (cbn [need]; rewrite need_list; reflexivity).
+      rewrite En. pose proof (commas_len items IHitems Hf). cbn [print_toks].
+      repeat (rewrite app_length || cbn [length]). lia.
+    - (* RecordE *)
+      assert (need (RecordE items) = S (needs_r items)) as En by (cbn [need]; rewrite need_list_r; reflexivity).
+      rewrite En. pose proof (commas_len_r items IHitems Hf). rewrite PT_record.
+      repeat (rewrite app_length || cbn [length]). lia.
+  Qed.
+
+  Lemma printable_in_fragment e : printable e = true -> in_fragment e = true.
+  Proof.
+    induction e as [p|v|s|n ty|c IHc t IHt e IHe|a IHa b IHb|a IHa b IHb|op a IHa|op a IHa b IHb
+                   |fn args IHargs|a IHa k|a IHa k|a IHa p|a IHa t|items IHitems|items IHitems] using expr_ind';
+      intros Hp; cbn [printable in_fragment] in *; try reflexivity; try discriminate;
+      repeat match goal with H : (_ && _) = true |- _ => apply andb_true_iff in H; destruct H end;
+      try (repeat (apply andb_true_iff; split); auto; fail).
+    - (* ExtCall *)
+      match goal with H : forallb printable args = true |- _ => revert H end. clear -IHargs.
+      induction IHargs as [|x l Hx HF IH]; intros H; [reflexivity|]. cbn [forallb] in *.
+      apply andb_true_iff in H. destruct H as [A B]. apply andb_true_iff. split; [apply Hx; exact A|apply IH; exact B].
+    - (* SetE *)
+      revert Hp. induction IHitems as [|x l Hx HF IH]; intros H; [reflexivity|]. cbn [forallb] in *.
+      apply andb_true_iff in H. destruct H as [A B]. apply andb_true_iff. split; [apply Hx; exact A|apply IH; exact B].
+    - (* RecordE *)
+      match goal with H : forallb _ items = true |- _ => revert H end. clear -IHitems.
+      induction IHitems as [|x l Hx HF IH]; intros H; [reflexivity|]. cbn [forallb] in *.
+      apply andb_true_iff in H. destruct H as [A B]. apply andb_true_iff in A. destruct A as [_ A].
+      apply andb_true_iff. split; [apply Hx; exact A|apply IH; exact B].
   Qed.
 
   Theorem expr_roundtrip_rest e rest :
-    printable e = true -> in_fragment e = true -> follow_ok 0 rest = true ->
+    printable e = true -> follow_ok 0 rest = true ->
     parse_expr (S (length (PT e ++ rest))) (PT e ++ rest) = Some (SP e, rest) /\ into_expr (SP e) = Some e.
   Proof.
-    intros Hp Hf Hr. split; [|apply into_expr_sp; exact Hp].
+    intros Hp Hr. pose proof (printable_in_fragment e Hp) as Hf. split; [|apply into_expr_sp; exact Hp].
     apply (top np ge e Hp (main_all np ge e Hf Hp)); [|exact Hr].
     pose proof (need_le_length e Hf). rewrite app_length. lia.
   Qed.
 
   Theorem expr_roundtrip e :
-    printable e = true -> in_fragment e = true -> parse_expr_toks (PT e) = Some e.
+    printable e = true -> parse_expr_toks (PT e) = Some e.
   Proof.
-    intros Hp Hf. destruct (expr_roundtrip_rest e [] Hp Hf eq_refl) as [H Hi].
+    intros Hp. destruct (expr_roundtrip_rest e [] Hp eq_refl) as [H Hi].
     rewrite app_nil_r in H. unfold parse_expr_toks. rewrite H. exact Hi.
   Qed.
 End Final.
